@@ -336,6 +336,9 @@ func BuildGenome(t *Tape, spec GenomeSpec) *genetics.Genome {
 			tr = traits[t.Draw("gtr", nTraits)]
 		}
 		g := genetics.NewGeneWithTrait(tr, w, a, b, rec, innov, w)
+		// the harness states every field itself: what a start genome is must not depend on a library constructor
+		g.Link.InNode, g.Link.OutNode, g.Link.IsRecurrent, g.Link.Trait, g.Link.ConnectionWeight = a, b, rec, tr, w
+		g.InnovationNum, g.MutationNum, g.IsEnabled = innov, w, true
 		if spec.AllowDisabled && t.Chance("disabled", 1, 6) {
 			g.IsEnabled = false
 		}
